@@ -274,11 +274,22 @@ fn c02_walk(idx: usize, ctx: &Ctx, rpt: &mut Report) {
         },
     };
     let behaviour = WalkBehavior {
-        depth: DepthBehavior::Unbounded,
+        // One unrooted walk in five runs with a minimum depth of one, which excludes exactly the
+        // base itself (an entry this check already treats as optional): every matching path
+        // *beneath* the base must still be yielded, whatever the glob's prefix.
+        depth: if matches!(case.family, "unrooted" | "dot-prefix" | "dotdot-prefix") && rng.chance(1, 5) {
+            wax::walk::DepthMin::from_min_or_unbounded(1)
+        }
+        else {
+            DepthBehavior::Unbounded
+        },
         // The variant-first-component family walks from the file system root: links are not
         // followed there and the model never traverses from the anchor.
         link: if case.family != "rooted-variant-first-component" && rng.chance(1, 3) { LinkBehavior::ReadTarget } else { LinkBehavior::ReadFile },
     };
+    if !matches!(behaviour.depth, DepthBehavior::Unbounded) {
+        rpt.bucket("behaviour:minimum-depth-one");
+    }
     if anchor_is_link(&glob, &case.base) {
         rpt.bucket("skipped:walk-starts-at-a-symbolic-link");
         return;
@@ -1665,15 +1676,38 @@ fn c20(idx: usize, ctx: &Ctx, rpt: &mut Report, enumerated: usize) {
         Some(s) => s,
         None => return,
     };
-    let bare = match guarded(|| walkrun::run(&root, None, behaviour, &[])) {
+    // One case in five walks a glob with an invariant prefix instead of the path: `<dir>/**` from
+    // the tree root, for a readable top-level directory. The traversal then starts at that
+    // directory (depths are counted from the tree root, one more than the traversal's own).
+    let top_dirs: Vec<String> = spec
+        .nodes
+        .iter()
+        .filter(|n| n.kind == Kind::Dir && !n.rel.contains('/') && !n.unreadable)
+        .map(|n| n.rel.clone())
+        .collect();
+    let gwalk: Option<(String, Glob<'static>)> = if idx % 5 == 2 && !top_dirs.is_empty() {
+        let d = rng.pick(&top_dirs).clone();
+        Glob::new(&format!("{}/**", wax::escape(&d))).ok().map(|g| (d, g.into_owned()))
+    }
+    else {
+        None
+    };
+    let (start, prefix_depth) = match &gwalk {
+        Some((d, _)) => (root.join(d), 1usize),
+        None => (root.clone(), 0usize),
+    };
+    if gwalk.is_some() {
+        rpt.bucket("walk:glob-with-invariant-prefix");
+    }
+    let bare = match guarded(|| walkrun::run(&root, gwalk.as_ref().map(|x| &x.1), behaviour, &[])) {
         Some(o) => o,
         None => return,
     };
-    let model = model_walk(&root, follow);
+    let model = model_walk(&start, follow);
     rpt.evaluations += 1;
     rpt.bucket(&format!("stack-kind:{}", stack_kind));
     rpt.bucket(if follow { "link:ReadTarget" } else { "link:ReadFile" });
-    let wit = || json!({"faults": faults_desc, "behaviour": behaviour_json(&behaviour), "layers": layers.iter().map(describe_layer).collect::<Vec<_>>(), "tree": describe_tree(&spec)});
+    let wit = || json!({"walk": gwalk.as_ref().map(|x| format!("{}/**", x.0)), "faults": faults_desc, "behaviour": behaviour_json(&behaviour), "layers": layers.iter().map(describe_layer).collect::<Vec<_>>(), "tree": describe_tree(&spec)});
     // Faults reported exactly.
     let exp_err = multiset(model.errs().map(|e| e.path.clone()));
     let got_err = err_paths(&bare.items);
@@ -1729,7 +1763,7 @@ fn c20(idx: usize, ctx: &Ctx, rpt: &mut Report, enumerated: usize) {
         }
     }
     // The readable part is walked completely.
-    let exp_ok = multiset(model.oks().filter(|e| e.depth >= min_depth).map(|e| e.path.clone()));
+    let exp_ok = multiset(model.oks().filter(|e| e.depth + prefix_depth >= min_depth).map(|e| e.path.clone()));
     let got_ok = ok_paths(&bare.items);
     let (missing, extra) = diff(&exp_ok, &got_ok);
     if !missing.is_empty() || !extra.is_empty() {
@@ -1743,7 +1777,7 @@ fn c20(idx: usize, ctx: &Ctx, rpt: &mut Report, enumerated: usize) {
     }
     // Combinators pass error items through unchanged and in place.
     if !layers.is_empty() {
-        let filtered = match guarded(|| walkrun::run(&root, None, behaviour, &stack.rts)) {
+        let filtered = match guarded(|| walkrun::run(&root, gwalk.as_ref().map(|x| &x.1), behaviour, &stack.rts)) {
             Some(o) => o,
             None => return,
         };
@@ -1780,7 +1814,13 @@ fn c20(idx: usize, ctx: &Ctx, rpt: &mut Report, enumerated: usize) {
             return;
         }
         // Ok items: exactly those every layer keeps (no tree discards in these stacks).
-        let sim = walksim::simulate(&model.entries, None, &stack.models, &root, (min_depth, None));
+        let gm = gwalk.as_ref().map(|(d, g)| GlobModel {
+            glob: g,
+            components: compile_components(g),
+            prefix: vec![d.clone()],
+            rooted: false,
+        });
+        let sim = walksim::simulate(&model.entries, gm.as_ref(), &stack.models, &root, (min_depth, None));
         let exp = multiset(sim.yielded.iter().map(|e| e.path.clone()));
         let got = ok_paths(&filtered.items);
         let (missing, extra) = diff(&exp, &got);
